@@ -42,7 +42,7 @@ CONSTANTS
   IssTab,        \* same for the cached-issue decay (half-life Len(IssTab) ticks)
   Late,          \* how many ticks late a maintenance tick may be taken (0 or 1)
   FIX_EXPIRY,    \* TRUE: the active path's expiry is a maintenance instant
-  FIX_FIFO       \* TRUE: issue FIFO and issue map are kept one-to-one
+  FIX_FIFO       \* TRUE: eviction pops until a map slot is free; the FIFO is compacted at 2 x IssueCap
 
 VARIABLES
   now,        \* injected clock
@@ -279,6 +279,12 @@ PopFront(m, q) ==      \* pinned commit: the map entry goes only if the timestam
 
 MapSize(m) == Cardinality({i \in Issues : m[i] >= 0})
 
+RECURSIVE PopUntilRoom(_, _)
+PopUntilRoom(m, q) ==
+  IF MapSize(m) >= IssueCap /\ q # <<>>
+  THEN LET p == PopFront(m, q) r == PopUntilRoom(p.m, p.q) IN [m |-> r.m, q |-> r.q, bad |-> p.bad \/ r.bad]
+  ELSE [m |-> m, q |-> q, bad |-> FALSE]
+
 Report(i) ==
   /\ alive
   /\ IF imap[i] >= 0 /\ now - imap[i] < Dedup
@@ -289,12 +295,13 @@ Report(i) ==
              THEN chan' = Tail(chan) \o <<i>> /\ lag' = TRUE
              ELSE chan' = Append(chan, i) /\ lag' = lag
           /\ IF FIX_FIFO
-             THEN LET q1 == SelectSeq(fifo, LAMBDA x : x.id # i)
-                      p  == IF imap[i] < 0 /\ MapSize(imap) >= IssueCap THEN PopFront(imap, q1)
-                            ELSE [m |-> imap, q |-> q1, bad |-> FALSE]
-                  IN /\ fifo' = Append(p.q, [id |-> i, stamp |-> now])
+             THEN \* repaired: pop until a slot is really free (only for a new id); compact the FIFO at 2 x capacity
+                  LET p  == IF imap[i] < 0 THEN PopUntilRoom(imap, fifo) ELSE [m |-> imap, q |-> fifo, bad |-> FALSE]
+                      q2 == IF Len(p.q) >= 2 * MaxI(IssueCap, 1)
+                            THEN SelectSeq(p.q, LAMBDA x : p.m[x.id] = x.stamp) ELSE p.q
+                  IN /\ fifo' = Append(q2, [id |-> i, stamp |-> now])
                      /\ imap' = [p.m EXCEPT ![i] = now]
-                     /\ out' = [kind |-> "report", res |-> "accepted"]
+                     /\ out' = [kind |-> "report", res |-> IF p.bad THEN "badcache" ELSE "accepted"]
              ELSE LET p == IF MapSize(imap) >= IssueCap THEN PopFront(imap, fifo) ELSE [m |-> imap, q |-> fifo, bad |-> FALSE]
                   IN /\ fifo' = Append(p.q, [id |-> i, stamp |-> now])
                      /\ imap' = [p.m EXCEPT ![i] = now]
